@@ -194,6 +194,19 @@ Proof.
     + destruct Hs as [Hs|Hs]; [lia|]. subst c'. cbn [concat]. unfold blen at 2. cbn [length].
       destruct (N.leb_spec n (blen b' + N.of_nat 0)) as [H2|_]; [lia|]. reflexivity.
   - (* Alloc *) reflexivity.
+  - (* CopyOut *)
+    cbn [flat_step].
+    pose proof (ensure_flat n chunks buf) as Hf. pose proof (ensure_spec n chunks buf) as Hs.
+    destruct (ensure n buf chunks) as [b' c']. cbn [fst snd] in *. rewrite <- Hf.
+    unfold flat. cbn [fst snd]. rewrite blen_app.
+    destruct (N.leb_spec n (blen b')) as [H1|H1].
+    + destruct (N.leb_spec n (blen b' + blen (concat c'))) as [_|H2]; [|lia].
+      cbn [fst snd]. unfold blen in H1.
+      f_equal; [f_equal; apply firstn_app_short; lia|apply skipn_app_short; lia].
+    + destruct Hs as [Hs|Hs]; [lia|]. subst c'. cbn [concat]. unfold blen at 2. cbn [length].
+      destruct (N.leb_spec n (blen b' + N.of_nat 0)) as [H2|_]; [lia|]. rewrite app_nil_r. reflexivity.
+  - (* Write *) reflexivity.
+  - (* WriterErr *) reflexivity.
 Qed.
 
 (** every program *)
